@@ -136,8 +136,19 @@ func init() {
 		NotCovered: "agreement and liveness — entirely; they live in nspcc-dev/dbft and in message timing",
 	})
 	register(&PropertySpec{
+		ID: "C17",
+		Rules: []RuleSpec{
+			{"hash-canonical", "every cached identity (hash/size of transaction, header, extensible, notary request) is computed from the node's own encoding, or from received bytes only if the length decoder rejects non-minimal encodings", ruleHashCanonical},
+			{"codec-symmetry", "for every type with EncodeBinary and DecodeBinary the sequences of wire primitives on the writer/reader agree token by token when both are straight-line; otherwise the sets of primitive kinds agree", ruleCodecSymmetry},
+			{"bounded-alloc", "in every binary decoder a make() sized by a decoded integer is gated by an ordering comparison of that integer", ruleBoundedAlloc},
+			{"depth-guard", "recursive witness-condition decoders (binary, stack item, JSON) test their depth parameter and pass a strictly smaller one on every recursive step", func(c *Ctx) { ruleDepthGuard(c) }},
+		},
+		NotCovered: "JSON round trips, Size() equality, value equality after decode, hangs",
+	})
+	register(&PropertySpec{
 		ID: "C07",
 		Rules: []RuleSpec{
+			{"hash-canonical", "a cached identity (hash/size) is computed from the node's own encoding, or from received bytes only if the length decoder rejects non-minimal encodings (the same content must be the same transaction in every accepted encoding)", ruleHashCanonical},
 			{"admit-dominators", "every admission check of verifyAndPoolTx (script, expiry, VUB window, policy, size, network fee, on-chain/conflict record, witnesses with the remaining fee, attributes) gates pool.Add on every CFG path", ruleAdmitDominators},
 		},
 		NotCovered: "the exact fee threshold (arithmetic), witness costs, block packing sizes, proposal validity after a wire round trip",
